@@ -456,7 +456,7 @@ func main() {
 	rng := lib.NewRng(run.Seed)
 	st := lib.NewStats("C17", "workloads of <= 8 commits (0-2 blocks each with lengths around the rollover boundary of a 512..1024-byte file, 0-3 metadata puts/deletes), flush policy per commit (forced flags, size-0 cache, default cache), optional clean prefix and Close; for every workload a child process is crashed (os.Exit) at every (crash point, k-th hit) of the 15 instrumented points incl. a torn half write before every flat-file write; parent reopens, observes cursor/files/blocks/metadata, commits further, reopens again. nontrivial = a crash that left the files ahead of or equal to the durable cursor with at least one commit made or lost; distinct by (workload, point, k)")
 	sh := &lib.Shards{Dir: run.Out, Imports: "From ELA Require Import model.C18_Flat corr.C18_corr model.C17_Crash corr.C17_corr.", CaseType: "C17_corr.case",
-		Mismatch: "C17_corr.mismatches", Scope: "N", PerShard: 40}
+		Mismatch: "C17_corr.mismatches", Scope: "N", PerShard: 24}
 	self, err := os.Executable()
 	if err != nil {
 		panic(err)
@@ -472,7 +472,7 @@ func main() {
 	defer os.RemoveAll(base)
 
 	ws := corpus()
-	nw := run.N(3, 60)
+	nw := run.N(2, 60)
 	for i := 0; i < nw; i++ {
 		ws = append(ws, genWorkload(rng.Fork(), run.Thorough() || i == 0))
 	}
